@@ -5,16 +5,16 @@ From Atlas Require Import Base.Bytes Lex.LexModel Lex.LexProofs gen.Gen_ScanOpts
 Import ListNotations.
 Open Scope Z_scope.
 
-(** the option sets covered by the partial-correctness theorems: everything except the GO batch
-    command (its statement text is cut before the consumed "GO", so [Pos] is off) and
-    BEGIN TRY / END CATCH (the scanner moves backwards). *)
-Definition supported (o : opts) : bool := negb (GoCommand o) && negb (MatchBeginTryCatch o).
+(** the option sets covered by the theorems: everything except the GO batch command (its
+    statement text is cut before the consumed "GO", so [Pos] is off). BEGIN TRY / END CATCH
+    matching (the scanner moves backwards there) is covered since the follow-up round. *)
+Definition supported (o : opts) : bool := negb (GoCommand o).
 
 Lemma driver_opts_supported : forallb supported gen_scan_opts = true.
 Proof. vm_compute. reflexivity. Qed.
 
-Lemma supported_spec o : supported o = true -> GoCommand o = false /\ MatchBeginTryCatch o = false.
-Proof. unfold supported. rewrite andb_true_iff, !negb_true_iff. auto. Qed.
+Lemma supported_spec o : supported o = true -> GoCommand o = false.
+Proof. unfold supported. rewrite negb_true_iff. auto. Qed.
 
 Lemma in_driver_supported o : In o gen_scan_opts -> supported o = true.
 Proof. intros H. apply (proj1 (forallb_forall _ _) driver_opts_supported _ H). Qed.
@@ -23,7 +23,7 @@ Lemma scan_lossless o inp ss :
   supported o = true -> scan o inp = Ok ss ->
   exists hdr d0 rest, inp = hdr ++ rest /\ Header inp hdr d0 /\ Lossless o d0 (zlen hdr) rest ss.
 Proof.
-  intros Hs H. apply supported_spec in Hs as [H1 H2]. eapply Scan_lossless; eauto.
+  intros Hs H. apply supported_spec in Hs. eapply Scan_lossless; eauto.
 Qed.
 
 Lemma scan_positions o inp ss :
@@ -43,10 +43,10 @@ Proof.
 Qed.
 
 Lemma scan_terminates o inp : supported o = true -> scan o inp <> OutOfFuel.
-Proof. intros Hs. apply supported_spec in Hs as [H1 H2]. apply Scan_terminates; auto. Qed.
+Proof. intros Hs. apply supported_spec in Hs. apply Scan_terminates; auto. Qed.
 
 Lemma scan_total o inp : supported o = true -> scan o inp <> OutOfFuel /\ scan o inp <> Panic.
 Proof.
   intros Hs. split; [apply scan_terminates; exact Hs|].
-  apply supported_spec in Hs as [H1 H2]. apply Scan_no_panic; auto.
+  apply supported_spec in Hs. apply Scan_no_panic; auto.
 Qed.
